@@ -352,7 +352,7 @@ pub fn run(run: &mut Run) {
         (0u8..5, any::<u8>(), any::<u8>(), 0u8..3, 0u8..3),
         forms_case,
     );
-    let n = run.cases(120_000, 5_000_000);
+    let n = run.cases(600_000, 24_000_000);
     run.sub(
         "delivery",
         "all 256 vectors x error codes (edge-biased u64) x interrupted stack pointers of any alignment x RFLAGS images: a simulated interrupt is delivered to the handler address decoded from the raw entry of a fully installed table (both the no-range and the 0..=255 installation); oracle: general handler called exactly once with index = vector, frame fields = what was pushed, error_code = Some(e) exactly on vectors {8,10-14,17,21,29,30}; returning vectors resume at the interrupted RIP with RSP and arithmetic flags of the frame; non-trivial = error-code vector or unaligned RSP; distinct by (vector, error code, RSP mod 16, flags)",
@@ -360,7 +360,7 @@ pub fn run(run: &mut Run) {
         (prop_oneof![4 => any::<u8>(), 4 => proptest::sample::select(vec![8u8, 10, 11, 12, 13, 14, 17, 21, 29, 30]), 1 => 0u8..32], u64_edge(), any::<u32>(), any::<u64>(), any::<bool>()),
         delivery_case,
     );
-    let n = run.cases(20_000, 1_000_000);
+    let n = run.cases(100_000, 4_000_000);
     run.sub(
         "iretq",
         "InterruptStackFrameValue::new(..).iretq() on generated stack pointers/flags: lands on the frame's RIP with its RSP and flags; field offsets 0,8,16,24,32 and size 40",
